@@ -22,6 +22,10 @@ pub struct Case {
     pub prefix: u8,
     /// thorough tier: additional kills at random instants (delay in microseconds after the child starts)
     pub random_kills: Vec<u32>,
+    /// kills at system-call boundaries (the child runs under ptrace): 0 = none, otherwise at most this many
+    /// positions, spread evenly over the system calls the history makes (all of them if there are fewer)
+    #[serde(default)]
+    pub sys_kills: u16,
 }
 
 /// What the child executes: the universe of events and the concrete steps.
@@ -34,6 +38,8 @@ pub struct Script {
 pub struct C13;
 
 pub static KILLS: AtomicU64 = AtomicU64::new(0);
+pub static SYS_KILLS: AtomicU64 = AtomicU64::new(0);
+pub static SYSCALLS_SEEN: AtomicU64 = AtomicU64::new(0);
 static POINT_HIST: Mutex<BTreeMap<String, u64>> = Mutex::new(BTreeMap::new());
 static SAMPLE_KILLS: Mutex<Vec<String>> = Mutex::new(Vec::new());
 
@@ -54,6 +60,7 @@ pub fn child_main(args: &[String]) -> i32 {
     let dir = PathBuf::from(&args[2]);
     let from: usize = args.get(3).and_then(|s| s.parse().ok()).unwrap_or(0);
     let until: usize = args.get(4).and_then(|s| s.parse().ok()).unwrap_or(usize::MAX);
+    let snap_out = args.get(5).map(|s| s == "snap").unwrap_or(false);
     let counter = Arc::new(AtomicU64::new(0));
     let cur_step = Arc::new(AtomicU64::new(u64::MAX)); // u64::MAX = opening
     let log: Arc<Mutex<Vec<(u64, &'static str)>>> = Arc::new(Mutex::new(Vec::new()));
@@ -80,6 +87,7 @@ pub fn child_main(args: &[String]) -> i32 {
             let _ = f.flush();
         }
     };
+    marker_syscall(1);
     let mut w = match World::at(Dir { tmp: None, p: dir.clone() }, 0) {
         Ok(w) => w,
         Err(f) => {
@@ -89,6 +97,7 @@ pub fn child_main(args: &[String]) -> i32 {
     };
     w.events = script.events.clone();
     w.owned = script.events.iter().map(|e| e.to_owned_event().unwrap()).collect();
+    w.by_id = script.events.iter().enumerate().map(|(i, e)| (e.id.clone(), i)).collect();
     note("O\n");
     println!("READY");
     let _ = std::io::stdout().flush();
@@ -97,8 +106,20 @@ pub fn child_main(args: &[String]) -> i32 {
             continue;
         }
         cur_step.store(i as u64, Ordering::SeqCst);
+        marker_syscall(2);
         let step = w.apply(st);
         note(&format!("{} {}\n", i, step.res.class()));
+    }
+    marker_syscall(3);
+    if snap_out {
+        // fault-injection runs: what this very store object shows after the last step
+        let text = match w.snapshot() {
+            Ok(s) => serde_json::to_string(&s).unwrap_or_default(),
+            Err(e) => format!("SNAPSHOT-ERROR {e}"),
+        };
+        let mut sp = dir.as_os_str().to_owned();
+        sp.push(".snap");
+        let _ = std::fs::write(PathBuf::from(sp), text);
     }
     pocket_db::verif::set_hook(None);
     if k == 0 {
@@ -160,6 +181,195 @@ fn run_child(script_path: &Path, k: u64, dir: &Path, from: usize, until: usize, 
     })
 }
 
+/// A system call that neither std, LMDB nor pocket make and that changes nothing: getpriority with an invalid
+/// `which` fails with EINVAL. The tracing parent reads the code from the first argument:
+/// 1 = the child starts opening the store, 2 = a step begins, 3 = the history is over.
+const MARK_BASE: u64 = 0x5056_0000;
+fn marker_syscall(code: u64) {
+    unsafe {
+        let _ = libc::syscall(libc::SYS_getpriority, MARK_BASE | code, 0u64);
+    }
+}
+
+pub struct Traced {
+    pub killed: bool,
+    pub exit: Option<i32>,
+    /// the system calls entered inside the window (dry run: all of them; kill run: up to the kill):
+    /// (number, ordinal of the step being executed counted from the first executed one, -1 = while opening)
+    pub syscalls: Vec<(i64, i64)>,
+}
+
+#[derive(Clone, Copy, Debug, PartialEq)]
+pub enum TraceMode {
+    Dry,
+    /// SIGKILL when the child is about to enter its n-th system call of the window (1-based)
+    KillAt(u64),
+    /// the n-th system call of the window is not executed and returns -errno instead
+    FailAt(u64, i32),
+}
+
+/// Runs the child under ptrace. The window starts at marker 1 and ends at marker 3. A kill happens at a
+/// system-call entry stop, i.e. the call itself is not executed: the files are exactly as the previous call left
+/// them, plus whatever the process wrote through its shared mappings since. An injected failure replaces the
+/// call by an invalid one at its entry stop and overwrites the return value at its exit stop.
+#[cfg(all(target_os = "linux", target_arch = "x86_64"))]
+pub fn run_child_traced(script_path: &Path, dir: &Path, from: usize, until: usize, mode: TraceMode, snap: bool) -> Result<Traced, String> {
+    use std::os::unix::process::CommandExt;
+    const RAX: usize = 10 * 8;
+    const RDI: usize = 14 * 8;
+    const ORIG_RAX: usize = 15 * 8;
+    let exe = std::env::current_exe().map_err(|e| e.to_string())?;
+    let mut cmd = std::process::Command::new(exe);
+    let _ = cmd
+        .arg("crash-child")
+        .arg(script_path)
+        .arg("0")
+        .arg(dir)
+        .arg(from.to_string())
+        .arg(until.to_string())
+        .arg(if snap { "snap" } else { "-" })
+        .stdout(std::process::Stdio::null())
+        .stderr(std::process::Stdio::null());
+    unsafe {
+        let _ = cmd.pre_exec(|| {
+            if libc::ptrace(libc::PTRACE_TRACEME, 0, 0, 0) < 0 {
+                return Err(std::io::Error::last_os_error());
+            }
+            Ok(())
+        });
+    }
+    let child = cmd.spawn().map_err(|e| format!("spawn: {e}"))?;
+    let pid = child.id() as libc::pid_t;
+    let mut status: libc::c_int = 0;
+    let wait = |status: &mut libc::c_int| -> Result<(), String> {
+        loop {
+            let r = unsafe { libc::waitpid(pid, status as *mut _, libc::__WALL) };
+            if r == pid {
+                return Ok(());
+            }
+            let e = std::io::Error::last_os_error();
+            if e.kind() != std::io::ErrorKind::Interrupted {
+                return Err(format!("waitpid: {e}"));
+            }
+        }
+    };
+    let give_up = |status: &mut libc::c_int, what: String| -> Result<Traced, String> {
+        unsafe {
+            let _ = libc::kill(pid, libc::SIGKILL);
+        }
+        let _ = wait(status);
+        Err(what)
+    };
+    wait(&mut status)?;
+    if !libc::WIFSTOPPED(status) {
+        return Err(format!("traced child did not stop at exec (status {status:#x})"));
+    }
+    let opts = libc::PTRACE_O_TRACESYSGOOD | libc::PTRACE_O_EXITKILL;
+    if unsafe { libc::ptrace(libc::PTRACE_SETOPTIONS, pid, 0, opts) } < 0 {
+        let e = std::io::Error::last_os_error();
+        return give_up(&mut status, format!("PTRACE_SETOPTIONS: {e}"));
+    }
+    let mut in_window = false;
+    let mut step: i64 = -1;
+    let mut syscalls: Vec<(i64, i64)> = Vec::new();
+    let mut deliver: libc::c_int = 0;
+    let mut pending_errno: Option<i32> = None;
+    loop {
+        if unsafe { libc::ptrace(libc::PTRACE_SYSCALL, pid, 0, deliver as libc::c_long) } < 0 {
+            let e = std::io::Error::last_os_error();
+            return give_up(&mut status, format!("PTRACE_SYSCALL: {e}"));
+        }
+        deliver = 0;
+        wait(&mut status)?;
+        if libc::WIFEXITED(status) {
+            return Ok(Traced { killed: false, exit: Some(libc::WEXITSTATUS(status)), syscalls });
+        }
+        if libc::WIFSIGNALED(status) {
+            return Ok(Traced { killed: libc::WTERMSIG(status) == libc::SIGKILL, exit: None, syscalls });
+        }
+        if !libc::WIFSTOPPED(status) {
+            continue;
+        }
+        let sig = libc::WSTOPSIG(status);
+        if sig == (libc::SIGTRAP | 0x80) {
+            if let Some(errno) = pending_errno.take() {
+                // exit stop of the call that was suppressed
+                if unsafe { libc::ptrace(libc::PTRACE_POKEUSER, pid, RAX, -(errno as libc::c_long)) } < 0 {
+                    let e = std::io::Error::last_os_error();
+                    return give_up(&mut status, format!("PTRACE_POKEUSER rax: {e}"));
+                }
+                continue;
+            }
+            // entry stops have rax = -ENOSYS
+            let rax = unsafe { libc::ptrace(libc::PTRACE_PEEKUSER, pid, RAX, 0) };
+            if rax != -(libc::ENOSYS as libc::c_long) {
+                continue;
+            }
+            let nr = unsafe { libc::ptrace(libc::PTRACE_PEEKUSER, pid, ORIG_RAX, 0) } as i64;
+            if nr == libc::SYS_getpriority as i64 {
+                let rdi = unsafe { libc::ptrace(libc::PTRACE_PEEKUSER, pid, RDI, 0) } as u64;
+                if rdi & 0xffff_0000 == MARK_BASE {
+                    match rdi & 0xffff {
+                        1 => in_window = true,
+                        2 => step += 1,
+                        _ => in_window = false,
+                    }
+                    continue;
+                }
+            }
+            if in_window {
+                syscalls.push((nr, step));
+                let n = syscalls.len() as u64;
+                match mode {
+                    TraceMode::KillAt(k) if n == k => {
+                        unsafe {
+                            let _ = libc::kill(pid, libc::SIGKILL);
+                        }
+                        wait(&mut status)?;
+                        // a tracee killed in a stop may report one more stop before it dies
+                        while libc::WIFSTOPPED(status) {
+                            wait(&mut status)?;
+                        }
+                        return Ok(Traced { killed: libc::WIFSIGNALED(status), exit: None, syscalls });
+                    }
+                    TraceMode::FailAt(k, errno) if n == k => {
+                        if unsafe { libc::ptrace(libc::PTRACE_POKEUSER, pid, ORIG_RAX, -1 as libc::c_long) } < 0 {
+                            let e = std::io::Error::last_os_error();
+                            return give_up(&mut status, format!("PTRACE_POKEUSER orig_rax: {e}"));
+                        }
+                        pending_errno = Some(errno);
+                    }
+                    _ => {}
+                }
+            }
+        } else if sig == libc::SIGTRAP {
+            // exec / event stops: not forwarded
+        } else {
+            deliver = sig;
+        }
+    }
+}
+
+#[cfg(not(all(target_os = "linux", target_arch = "x86_64")))]
+pub fn run_child_traced(_: &Path, _: &Path, _: usize, _: usize, _: TraceMode, _: bool) -> Result<Traced, String> {
+    Err("system-call tracing is implemented for linux/x86_64 only".into())
+}
+
+pub fn syscall_name(nr: i64) -> String {
+    let names: &[(i64, &str)] = &[
+        (libc::SYS_read, "read"), (libc::SYS_write, "write"), (libc::SYS_open, "open"), (libc::SYS_openat, "openat"), (libc::SYS_close, "close"),
+        (libc::SYS_fstat, "fstat"), (libc::SYS_newfstatat, "newfstatat"), (libc::SYS_statx, "statx"), (libc::SYS_lseek, "lseek"),
+        (libc::SYS_mmap, "mmap"), (libc::SYS_munmap, "munmap"), (libc::SYS_mremap, "mremap"), (libc::SYS_msync, "msync"), (libc::SYS_mprotect, "mprotect"),
+        (libc::SYS_pread64, "pread64"), (libc::SYS_pwrite64, "pwrite64"), (libc::SYS_pwritev, "pwritev"), (libc::SYS_writev, "writev"),
+        (libc::SYS_ftruncate, "ftruncate"), (libc::SYS_fallocate, "fallocate"), (libc::SYS_fsync, "fsync"), (libc::SYS_fdatasync, "fdatasync"),
+        (libc::SYS_fcntl, "fcntl"), (libc::SYS_flock, "flock"), (libc::SYS_mkdir, "mkdir"), (libc::SYS_mkdirat, "mkdirat"), (libc::SYS_rename, "rename"),
+        (libc::SYS_renameat, "renameat"), (libc::SYS_renameat2, "renameat2"), (libc::SYS_unlink, "unlink"), (libc::SYS_unlinkat, "unlinkat"),
+        (libc::SYS_futex, "futex"), (libc::SYS_brk, "brk"), (libc::SYS_madvise, "madvise"), (libc::SYS_getrandom, "getrandom"), (libc::SYS_getdents64, "getdents64"),
+        (libc::SYS_clock_gettime, "clock_gettime"), (libc::SYS_fstatfs, "fstatfs"), (libc::SYS_readlink, "readlink"), (libc::SYS_getpid, "getpid"), (libc::SYS_access, "access"), (libc::SYS_ioctl, "ioctl"),
+    ];
+    names.iter().find(|(n, _)| *n == nr).map(|(_, s)| s.to_string()).unwrap_or_else(|| format!("sys_{nr}"))
+}
+
 fn copy_dir(from: &Path, to: &Path) -> std::io::Result<()> {
     std::fs::create_dir_all(to)?;
     for e in std::fs::read_dir(from)? {
@@ -206,12 +416,12 @@ impl Prop for C13 {
         "fault_enumeration"
     }
     fn rule(&self) -> String {
-        "Fault model: process death by SIGKILL (page cache survives), at every named point compiled in with the 'verif' feature along store creation/opening (directory created, lmdb directory created, event map opened / sized / mapped, index opened) and along store_event / remove_event / vanish (transaction open, after the checks, after pre-removal, after alignment padding, mid-copy of the event bytes, copied but end marker not yet moved, appended, file grown, map remapped, indexed, per deletion tag, before commit, committed). Cases: a history of 1..8 (thorough 1..16) operations (stores incl. replacing, deleting and file-growing ones, removes, vanishes), optionally with a prefix already applied; a dry run in a child process counts the M points passed; then EVERY k in 1..=M is executed in a fresh child on a fresh copy of the starting directory, the child killing itself with SIGKILL at its k-th point (the thorough tier adds kills at random instants sent by the parent). Oracle per kill: Store::new on the directory succeeds; the full snapshot (see C12) equals the reference snapshot before or after the interrupted operation (vanish: retrievable set between the two, everything else equal to the state before); every retrievable event is byte-identical; then the remaining operations are applied and every result class and the final snapshot equal the uninterrupted reference run. evaluations = kills executed; non-trivial = kill strictly inside an operation that changes state (not at its first or last point); distinct by (history fingerprint, k).".into()
+        "Fault model: process death by SIGKILL (page cache survives), at every named point compiled in with the 'verif' feature along store creation/opening (directory created, lmdb directory created, event map opened / sized / mapped, index opened) and along store_event / remove_event / vanish (transaction open, after the checks, after pre-removal, after alignment padding, mid-copy of the event bytes, copied but end marker not yet moved, appended, file grown, map remapped, indexed, per deletion tag, before commit, committed). Cases: a history of 1..8 (thorough 1..16) operations (stores incl. replacing, deleting and file-growing ones, removes, vanishes), optionally with a prefix already applied; a dry run in a child process counts the M points passed; then EVERY k in 1..=M is executed in a fresh child on a fresh copy of the starting directory, the child killing itself with SIGKILL at its k-th point (the thorough tier adds kills at random instants sent by the parent). For every second history the child is additionally run under ptrace and killed at the entry of EVERY system call it makes between starting to open the store and the end of the history (mkdir, openat, ftruncate, pwrite64, writev, mremap, msync, fcntl, ...: 50-110 per history), i.e. at every instant at which the files can differ, independently of where the named points were placed. Oracle per kill: Store::new on the directory succeeds; the full snapshot (see C12) equals the reference snapshot before or after the interrupted operation (vanish: retrievable set between the two, everything else equal to the state before); every retrievable event is byte-identical; then the remaining operations are applied and every result class and the final snapshot equal the uninterrupted reference run. evaluations = kills executed; non-trivial = kill strictly inside an operation that changes state (not at its first or last point); distinct by (history fingerprint, k).".into()
     }
     fn assumptions(&self) -> Vec<String> {
         vec![
             "Process death, not power loss: what the kernel has in its page cache survives (LMDB runs with NO_SYNC).".into(),
-            "Instants between two named points are equivalent to one of them for the code under test, except inside LMDB's commit and inside memcpy; the mid-copy point and the thorough tier's random-instant kills sample those.".into(),
+            "Instants between two named points are equivalent to one of them for the code under test, except inside LMDB's commit and inside memcpy; the mid-copy point, the system-call-boundary kills (which stop between the individual writes of an LMDB commit) and the thorough tier's random-instant kills cover those.".into(),
             "The reference run and the recovered run may place events at different offsets (orphan bytes); snapshots do not contain offsets.".into(),
         ]
     }
@@ -257,13 +467,16 @@ impl Prop for C13 {
             prop::collection::vec(op_strategy(w, cfg), 1..=tier.pick(8, 16)),
             prop_oneof![2 => Just(0u8), 1 => 1u8..6],
             prop::collection::vec(0u32..3000, n_random..=n_random),
+            prop_oneof![1 => Just(0u16), 1 => Just(tier.pick(400u16, 2000u16))],
         )
-            .prop_map(|(ops, prefix, random_kills)| Case { ops, prefix, random_kills })
+            .prop_map(|(ops, prefix, random_kills, sys_kills)| Case { ops, prefix, random_kills, sys_kills })
             .boxed()
     }
     fn extra_coverage(&self) -> serde_json::Map<String, serde_json::Value> {
         let mut m = serde_json::Map::new();
         let _ = m.insert("kills_executed".into(), serde_json::json!(KILLS.load(Ordering::SeqCst)));
+        let _ = m.insert("kills_at_syscall_boundaries".into(), serde_json::json!(SYS_KILLS.load(Ordering::SeqCst)));
+        let _ = m.insert("max_syscalls_in_one_history".into(), serde_json::json!(SYSCALLS_SEEN.load(Ordering::SeqCst)));
         let _ = m.insert("kills_by_point".into(), serde_json::json!(*POINT_HIST.lock().unwrap()));
         let _ = m.insert("sample_kills".into(), serde_json::json!(*SAMPLE_KILLS.lock().unwrap()));
         m
@@ -399,32 +612,83 @@ impl Prop for C13 {
         let _ = universe_ids;
 
         // ---- the kills
-        let mut plan: Vec<(u64, Option<u32>)> = (1..=m).map(|k| (k, None)).collect();
+        let mut plan: Vec<(u64, Option<u32>, u64)> = (1..=m).map(|k| (k, None, 0)).collect();
         for us in &c.random_kills {
-            plan.push((0, Some(*us)));
+            plan.push((0, Some(*us), 0));
         }
-        for (k, random_us) in plan {
-            let dir = area.path().join(format!("k{}_{}", k, random_us.unwrap_or(0)));
+        // kills at system-call boundaries: a traced dry run lists the calls made between opening the store and the
+        // end of the history
+        let mut sys_calls: Vec<i64> = Vec::new();
+        if c.sys_kills > 0 {
+            let sdry = area.path().join("sysdry");
+            if prefix > 0 {
+                let _ = copy_dir(&start, &sdry);
+                let _ = std::fs::copy(progress_path(&start), progress_path(&sdry));
+            }
+            match run_child_traced(&script_path, &sdry, prefix, usize::MAX, TraceMode::Dry, false) {
+                Ok(t) if t.exit == Some(0) => sys_calls = t.syscalls.iter().map(|x| x.0).collect(),
+                Ok(t) => {
+                    out.inconclusive = Some("ptrace-dry-run-failed".into());
+                    out.label(format!("inconclusive:traced dry run exit {:?} killed {}", t.exit, t.killed));
+                }
+                Err(e) => {
+                    out.inconclusive = Some("ptrace-unavailable".into());
+                    out.label(format!("inconclusive:{}", &e[..e.len().min(60)]));
+                }
+            }
+            let _ = std::fs::remove_dir_all(&sdry);
+            let _ = std::fs::remove_file(progress_path(&sdry));
+            let ms = sys_calls.len() as u64;
+            let n = (c.sys_kills as u64).min(ms);
+            for i in 1..=n {
+                plan.push((0, None, (i * ms + n - 1) / n));
+            }
+            if ms > 0 {
+                out.label("syscall-kill-history");
+                let _ = SYSCALLS_SEEN.fetch_max(ms, Ordering::SeqCst);
+            }
+        }
+        for (k, random_us, sys) in plan {
+            let dir = area.path().join(format!("k{}_{}_{}", k, random_us.unwrap_or(0), sys));
             if prefix > 0 {
                 if copy_dir(&start, &dir).is_err() {
                     continue;
                 }
                 let _ = std::fs::copy(progress_path(&start), progress_path(&dir));
             }
-            let run = match run_child(&script_path, k, &dir, prefix, usize::MAX, random_us) {
-                Ok(r) => r,
-                Err(e) => {
-                    out.fail("C13:harness:spawn", e);
-                    return out;
+            let run = if sys > 0 {
+                match run_child_traced(&script_path, &dir, prefix, usize::MAX, TraceMode::KillAt(sys), false) {
+                    Ok(t) => ChildRun { killed: t.killed, exit: t.exit, stdout: String::new() },
+                    Err(e) => {
+                        out.inconclusive = Some("ptrace-unavailable".into());
+                        out.label(format!("inconclusive:{}", &e[..e.len().min(60)]));
+                        let _ = std::fs::remove_dir_all(&dir);
+                        let _ = std::fs::remove_file(progress_path(&dir));
+                        continue;
+                    }
+                }
+            } else {
+                match run_child(&script_path, k, &dir, prefix, usize::MAX, random_us) {
+                    Ok(r) => r,
+                    Err(e) => {
+                        out.fail("C13:harness:spawn", e);
+                        return out;
+                    }
                 }
             };
             let _ = KILLS.fetch_add(1, Ordering::SeqCst);
             out.sub_evals += 1;
-            let (pstep, pname) = if k >= 1 { points[(k - 1) as usize].clone() } else { (-2, "random-instant".to_string()) };
+            let (pstep, pname) = if k >= 1 {
+                points[(k - 1) as usize].clone()
+            } else if sys > 0 {
+                (-2, format!("syscall:{}", syscall_name(sys_calls[(sys - 1) as usize])))
+            } else {
+                (-2, "random-instant".to_string())
+            };
             *POINT_HIST.lock().unwrap().entry(pname.clone()).or_insert(0) += 1;
             {
                 let mut sk = SAMPLE_KILLS.lock().unwrap();
-                if sk.len() < 8 && (k % 7 == 3 || random_us.is_some()) {
+                if (sk.len() < 6 && (k % 7 == 3 || random_us.is_some())) || (sk.len() < 12 && sys > 0 && sys % 5 == 2) {
                     sk.push(format!("SIGKILL at point {k}/{m} '{pname}' inside step {pstep} {:?} of a {}-step history (prefix of {prefix} steps applied beforehand)", if pstep >= 0 { steps.get(pstep as usize) } else { None }, steps.len()));
                 }
             }
@@ -438,6 +702,15 @@ impl Prop for C13 {
             let (opened, done) = read_progress(&dir);
             let done_steps: Vec<usize> = done.iter().map(|(i, _)| *i).collect();
             let j = done_steps.last().map(|x| x + 1).unwrap_or(prefix); // interrupted step (or beyond the end)
+            if sys > 0 {
+                out.label(if run.killed { "syscall-boundary-kill" } else { "syscall-kill-too-late" });
+                let _ = SYS_KILLS.fetch_add(1, Ordering::SeqCst);
+                let changes = j < steps.len() && snaps.get(j) != snaps.get(j + 1);
+                if run.killed && (changes || !opened) {
+                    out.sub_nontrivial += 1;
+                    out.nontrivial = true;
+                }
+            }
             if k >= 1 {
                 let inside = first_last.get(&pstep).map(|(a, b)| (k as usize - 1) > *a && (k as usize - 1) < *b).unwrap_or(false);
                 let changes = pstep >= 0 && snaps.get(pstep as usize) != snaps.get(pstep as usize + 1);
@@ -558,5 +831,233 @@ impl Prop for C13 {
             let _ = std::fs::remove_file(progress_path(&dir));
         }
         out
+    }
+}
+
+// ------------------------------------------------------------------------------------------
+// Injected I/O failures (used by C12): the same child, the same tracer, but instead of killing the
+// process its n-th system call is made to fail.
+
+pub static FAULTS_INJECTED: AtomicU64 = AtomicU64::new(0);
+static FAULT_HIST: Mutex<BTreeMap<String, u64>> = Mutex::new(BTreeMap::new());
+
+pub fn fault_histogram() -> BTreeMap<String, u64> {
+    FAULT_HIST.lock().unwrap().clone()
+}
+
+/// System calls whose failure a store call has to cope with: growing and remapping the event map, LMDB's page and
+/// meta writes, flushes.
+fn fallible(nr: i64) -> bool {
+    [
+        libc::SYS_ftruncate, libc::SYS_fallocate, libc::SYS_pwrite64, libc::SYS_pwritev, libc::SYS_writev, libc::SYS_mremap, libc::SYS_mmap, libc::SYS_msync,
+        libc::SYS_fsync, libc::SYS_fdatasync, libc::SYS_lseek, libc::SYS_pread64,
+    ]
+    .contains(&nr)
+}
+
+/// Runs `ops` once in process (reference), then for up to `max_faults` of the fallible system calls the history
+/// makes inside its steps: a fresh directory, the child run under the tracer up to and including the step the
+/// call belongs to, that one call failing with ENOSPC / EIO. Oracle (C12): if the step was a store call and
+/// returned an error, the snapshot the child takes from its still open store equals the reference snapshot
+/// before the step.
+pub fn inject_faults(ops: &[Op], max_faults: usize, out: &mut Outcome) {
+    let mut refw = match World::new(0) {
+        Ok(w) => w,
+        Err(f) => {
+            out.fail(format!("C12:{}", f.key), f.detail);
+            return;
+        }
+    };
+    let mut steps: Vec<Concrete> = Vec::new();
+    let mut ref_res: Vec<Res> = Vec::new();
+    for op in ops {
+        let Some(conc) = refw.concretise(op) else { continue };
+        let st = refw.apply(&conc);
+        if let Res::Panic(_) = &st.res {
+            return; // reported by the in-process part of the check
+        }
+        steps.push(conc);
+        ref_res.push(st.res);
+    }
+    if steps.is_empty() {
+        return;
+    }
+    let script = Script { events: refw.events.clone(), steps: steps.clone() };
+    let mut snapw = match World::new(0) {
+        Ok(w) => w,
+        Err(f) => {
+            out.fail(format!("C12:{}", f.key), f.detail);
+            return;
+        }
+    };
+    snapw.events = refw.events.clone();
+    snapw.owned = script.events.iter().map(|e| e.to_owned_event().unwrap()).collect();
+    snapw.by_id = refw.by_id.clone();
+    let mut snaps: Vec<BTreeMap<String, String>> = Vec::new();
+    match snapw.snapshot() {
+        Ok(s) => snaps.push(s),
+        Err(_) => return,
+    }
+    for st in steps.iter() {
+        let _ = snapw.apply(st);
+        match snapw.snapshot() {
+            Ok(s) => snaps.push(s),
+            Err(_) => return,
+        }
+    }
+    drop(snapw);
+    drop(refw);
+    let area = match tempfile::Builder::new().prefix("c12f").tempdir_in(scratch_base()) {
+        Ok(d) => d,
+        Err(e) => {
+            out.fail("C12:harness:tempdir", e.to_string());
+            return;
+        }
+    };
+    let script_path = write_script(area.path(), &script);
+    let dry = area.path().join("dry");
+    let calls = match run_child_traced(&script_path, &dry, 0, usize::MAX, TraceMode::Dry, false) {
+        Ok(t) if t.exit == Some(0) => t.syscalls,
+        Ok(t) => {
+            out.inconclusive = Some("ptrace-dry-run-failed".into());
+            out.label(format!("inconclusive:traced dry run exit {:?} killed {}", t.exit, t.killed));
+            return;
+        }
+        Err(e) => {
+            out.inconclusive = Some("ptrace-unavailable".into());
+            out.label(format!("inconclusive:{}", &e[..e.len().min(60)]));
+            return;
+        }
+    };
+    let _ = std::fs::remove_dir_all(&dry);
+    let _ = std::fs::remove_file(progress_path(&dry));
+    let cands: Vec<usize> = calls.iter().enumerate().filter(|(_, (nr, step))| *step >= 0 && fallible(*nr)).map(|(i, _)| i).collect();
+    if cands.is_empty() {
+        return;
+    }
+    out.label("fault-injection-history");
+    // a failure that belongs to the recorded finding is reported only if nothing else turns up in this history
+    let mut deferred: Option<(String, String)> = None;
+    let n = max_faults.min(cands.len());
+    for q in 0..n {
+        let ci = cands[(q * cands.len()) / n];
+        let (nr, step) = calls[ci];
+        let j = step as usize;
+        if j >= steps.len() {
+            continue;
+        }
+        let errno = if ci % 2 == 0 { libc::ENOSPC } else { libc::EIO };
+        let name = syscall_name(nr);
+        let dir = area.path().join(format!("f{ci}"));
+        let run = match run_child_traced(&script_path, &dir, 0, j + 1, TraceMode::FailAt(ci as u64 + 1, errno), true) {
+            Ok(t) => t,
+            Err(e) => {
+                out.inconclusive = Some("ptrace-unavailable".into());
+                out.label(format!("inconclusive:{}", &e[..e.len().min(60)]));
+                return;
+            }
+        };
+        let _ = FAULTS_INJECTED.fetch_add(1, Ordering::SeqCst);
+        out.sub_evals += 1;
+        let mut sp = dir.as_os_str().to_owned();
+        sp.push(".snap");
+        let snap_path = PathBuf::from(sp);
+        let cleanup = |dir: &Path, snap_path: &Path| {
+            let _ = std::fs::remove_dir_all(dir);
+            let _ = std::fs::remove_file(progress_path(dir));
+            let _ = std::fs::remove_file(snap_path);
+        };
+        if run.exit != Some(0) {
+            // the process died of the failure (an unwrap on an I/O error, SIGBUS, ...): not a returned error
+            *FAULT_HIST.lock().unwrap().entry(format!("{name}:child-died")).or_insert(0) += 1;
+            out.label("fault:child-died");
+            cleanup(&dir, &snap_path);
+            continue;
+        }
+        let (_, done) = read_progress(&dir);
+        let class = done.iter().find(|(i, _)| *i == j).map(|(_, c)| c.clone()).unwrap_or_default();
+        let snap_text = std::fs::read_to_string(&snap_path).unwrap_or_default();
+        let is_store = matches!(steps[j], Concrete::Store(_) | Concrete::StoreMany(_) | Concrete::Pressure(_));
+        let failed = !matches!(class.as_str(), "ok" | "skipped" | "");
+        let injected_changed_outcome = class != ref_res[j].class();
+        *FAULT_HIST.lock().unwrap().entry(format!("{name}:{}", if injected_changed_outcome { class.as_str() } else { "tolerated" })).or_insert(0) += 1;
+        if is_store && failed && injected_changed_outcome {
+            out.label("fault:store-failed");
+            out.sub_nontrivial += 1;
+            out.nontrivial = true;
+            if snap_text.starts_with("SNAPSHOT-ERROR") && snap_text.contains("MDB_PANIC") {
+                // LMDB declares the environment fatally broken when its meta-page write fails: nothing can be
+                // looked up through this store object any more. What a fresh process sees must still be the state
+                // before the call.
+                let reopened = World::at(Dir { tmp: None, p: dir.clone() }, 0).and_then(|mut w| {
+                    w.events = script.events.clone();
+                    w.owned = script.events.iter().map(|e| e.to_owned_event().unwrap()).collect();
+                    w.by_id = script.events.iter().enumerate().map(|(i, e)| (e.id.clone(), i)).collect();
+                    w.snapshot().map_err(|e| Fail { key: format!("snapshot-error:{e}"), detail: String::new() })
+                });
+                match reopened {
+                    Ok(snap) => {
+                        if let Some((cat, d)) = diff_snapshots(&snaps[j], &snap) {
+                            out.fail(
+                                format!("C12:changed-by-failed-store:injected-{name}:after-reopen:{cat}"),
+                                format!("step {j} {:?}: system call #{} ({name}) made to fail with errno {errno}; the store call returned '{class}' and the environment is in LMDB's fatal state; after reopening the directory the store is not as before the call: {d}", steps[j], ci + 1),
+                            );
+                            cleanup(&dir, &snap_path);
+                            return;
+                        }
+                    }
+                    Err(f) => {
+                        out.fail(
+                            format!("C12:reopen-fails-after-injected-failure:{name}:{}", f.key),
+                            format!("step {j} {:?}: system call #{} ({name}) made to fail with errno {errno}; the store call returned '{class}'; reopening the directory fails: {}", steps[j], ci + 1, f.detail),
+                        );
+                        cleanup(&dir, &snap_path);
+                        return;
+                    }
+                }
+                out.label("fault:environment-fatal");
+                if deferred.is_none() {
+                    deferred = Some((
+                        "C12:store-object-unusable-after-failed-meta-page-write".to_string(),
+                        format!(
+                            "step {j} {:?}: system call #{} of the history ({name}, LMDB's meta-page write) made to fail with errno {errno}; the store call returned '{class}', and from then on every lookup through the same store object fails ({}); a reopened store shows exactly the state before the call",
+                            steps[j],
+                            ci + 1,
+                            snap_text.trim_start_matches("SNAPSHOT-ERROR ")
+                        ),
+                    ));
+                }
+                cleanup(&dir, &snap_path);
+                continue;
+            }
+            if snap_text.starts_with("SNAPSHOT-ERROR") || snap_text.is_empty() {
+                out.fail(
+                    format!("C12:observe-error-after-injected-failure:{name}"),
+                    format!("step {j} {:?}: system call #{} ({name}) made to fail with errno {errno}; the store call returned '{class}', afterwards looking at the store fails: {snap_text}", steps[j], ci + 1),
+                );
+                cleanup(&dir, &snap_path);
+                return;
+            }
+            let snap: BTreeMap<String, String> = serde_json::from_str(&snap_text).unwrap_or_default();
+            if let Some((cat, d)) = diff_snapshots(&snaps[j], &snap) {
+                out.fail(
+                    format!("C12:changed-by-failed-store:injected-{name}:{cat}"),
+                    format!(
+                        "step {j} {:?}: system call #{} of the history ({name}) made to fail with errno {errno}; the store call returned '{class}' (without the failure: '{}'), but the store is not as before the call: {d}",
+                        steps[j],
+                        ci + 1,
+                        ref_res[j].class()
+                    ),
+                );
+                cleanup(&dir, &snap_path);
+                return;
+            }
+        } else if is_store {
+            out.label("fault:tolerated");
+        }
+        cleanup(&dir, &snap_path);
+    }
+    if let Some((k, d)) = deferred {
+        out.fail(k, d);
     }
 }
